@@ -572,7 +572,8 @@ def build(repo):
         vf.fn(DECODE, "impl:core::hash::Hash for Terminal<Pk, Ctx>/fn:hash", qual="Terminal", rename="hash_step", props=PROPS,
               rewrites=[lit("R7", "core::hash::Hasher", "Hasher"),
                         # R8': the loop over the pre-order iterator is reduced to its body for one node
-                        lit("R8-loop-body", "for term in self.pre_order_iter() {", "{ let term = self;")],
+                        # (the name of the loop variable is read off the text)
+                        sub("R8-loop-body", r"\bfor\s+(\w+)\s+in\s+self\s*\.\s*pre_order_iter\(\s*\)\s*\{", r"{ let \1 = self;", count=1)],
               contract=Contract(ensures=[
                   Clause("feed_is_variant_and_payload", ("C19",), "final(hasher).feed() == old(hasher).feed() + node_feed(*self)")]))
 
